@@ -1015,7 +1015,7 @@ class Evaluator(CallMixin, StmtMixin):
         if isinstance(op, ast.Sub):
             if isinstance(l, SInt) and isinstance(r, int):
                 return SInt(l.base, l.off - r)
-            return SOpaque(("sub", short(l), short(r)))
+            return _opq(("sub", short(l), short(r)), l, r)
         if isinstance(op, ast.Mult):
             for a, b in ((l, r), (r, l)):
                 if isinstance(a, str) and isinstance(b, (SInt,)):
@@ -1024,9 +1024,9 @@ class Evaluator(CallMixin, StmtMixin):
                     return SStr([Frag("REP", a, SInt(b.name))])
                 if isinstance(a, int) and isinstance(b, SInt):
                     return SOpaque(("mul", a, repr(b)), {"INT"})
-            return SOpaque(("mul", short(l), short(r)))
+            return _opq(("mul", short(l), short(r)), l, r)
         if isinstance(op, ast.Mod):
-            return SOpaque(("mod", short(l), short(r)))
+            return _opq(("mod", short(l), short(r)), l, r)
         raise self.unmodelled("binary operator", node)
 
     def add(self, l: Any, r: Any, node: ast.AST) -> Any:
@@ -1074,7 +1074,7 @@ class Evaluator(CallMixin, StmtMixin):
             # str + unknown: TypeError unless the other side implements __radd__; keep opaque
             return SStr((ls.frags if ls else (Frag("OP", ("operand", short(l)), None, ()),)) +
                         (rs.frags if rs else (Frag("OP", ("operand", short(r)), None, ()),)))
-        return SOpaque(("add", short(l), short(r)))
+        return _opq(("add", short(l), short(r)), l, r)
 
     def class_of(self, v: Any) -> Optional[ClassInfo]:
         if isinstance(v, SNew) and isinstance(v.cls, ClassInfo):
@@ -1315,6 +1315,12 @@ class _Base:
 
     def __repr__(self) -> str:
         return f"super<{self.base}>({short(self.obj)})"
+
+
+def _opq(descr: Any, *operands: Any) -> SOpaque:
+    o = SOpaque(descr)
+    o.__dict__["operands"] = operands
+    return o
 
 
 def _uid(o: Any) -> Any:
